@@ -44,15 +44,17 @@ def sh(cmd, cwd=None, env=None, timeout=None):
 # ------------------------------------------------------------------------------------------------
 # harness
 
-def build_harness():
-    """(Re)build the harness against /repo's current working tree, hooks enabled."""
+def build_harness(release=False):
+    """(Re)build the harness against /repo's current working tree, hooks enabled.  release=True: the release profile
+    (no debug_assert!: from_registry does not ping a fresh instance under the registry lock)."""
     lock = os.path.join(HARNESS, "Cargo.lock")
     if not os.path.exists(lock):
         shutil.copy(os.path.join(REPO, "Cargo.lock"), lock)
-    rc, out = sh(["cargo", "build", "--offline", "--quiet"], cwd=HARNESS, env={"CARGO_NET_OFFLINE": "true"}, timeout=1500)
+    cmd = ["cargo", "build", "--offline", "--quiet"] + (["--release"] if release else [])
+    rc, out = sh(cmd, cwd=HARNESS, env={"CARGO_NET_OFFLINE": "true"}, timeout=1500)
     if rc != 0:
         raise ToolError("harness build failed:\n" + out[-4000:])
-    return os.path.join(HARNESS, "target", "debug", "hharness")
+    return os.path.join(HARNESS, "target", "release" if release else "debug", "hharness")
 
 
 def run_harness(binary, scenarios, workdir, name):
@@ -134,7 +136,7 @@ TRACE_INVS = ["C01_AtMostOnce", "C01_RealTimeFIFO", "C01_NoOverlap", "C01_Fold",
               "C05_KeepAlive", "C05_DrainOnDrop", "C05_UpgradeDead", "C06", "C07", "C08", "C09_ExactlyOnce", "C09_Delivered", "C09_CommonOrder", "C09_PublisherOrder", "C09_BrokerNeverFails", "C10", "C11", "C12", "C13", "C14", "C15", "C16", "C17"]
 
 
-def validate_shard(traces, dev, workdir, tag, timeout=600):
+def validate_shard(traces, dev, workdir, tag, timeout=600, profile="debug"):
     """Validate the concatenation of `traces` with TLC. Returns a list of per-trace results
     (same order): {"ok": True} | {"ok": False, "kind": "reject"|"invariant", ...}."""
     stage_spec(workdir)
@@ -153,7 +155,7 @@ def validate_shard(traces, dev, workdir, tag, timeout=600):
                 f.write("\n".join(t["lines"]) + "\n")
         cfgp = os.path.join(workdir, f"{tag}.r{rounds}.cfg")
         with open(cfgp, "w") as f:
-            f.write("SPECIFICATION TSpec\nCONSTANTS\n  Actor = %s\n  Client = %s\n  Dev = %s\n" % (tla_set(actors), tla_set(clients), tla_set(sorted(dev))))
+            f.write("SPECIFICATION TSpec\nCONSTANTS\n  Actor = %s\n  Client = %s\n  Dev = %s\n  Profile = \"%s\"\n" % (tla_set(actors), tla_set(clients), tla_set(sorted(dev)), profile))
             f.write("CONSTRAINT Track\nINVARIANTS %s\nPOSTCONDITION Accepted\nCHECK_DEADLOCK FALSE\n" % " ".join(TRACE_INVS))
         md = os.path.join(workdir, f"md_{tag}_{rounds}")
         cmd = tlc_cmd(os.path.basename(cfgp), "Trace.tla", md, 1, ("-Xss1g", "-Xmx3g", "-Dtlc2.tool.queue.IStateQueue=StateDeque"))
@@ -205,13 +207,13 @@ def validate_shard(traces, dev, workdir, tag, timeout=600):
     return results
 
 
-def validate(traces, dev, workdir, shard=30, jobs=8):
+def validate(traces, dev, workdir, shard=30, jobs=8, profile="debug"):
     shards = [list(range(i, min(i + shard, len(traces)))) for i in range(0, len(traces), shard)]
     results = [None] * len(traces)
 
     def one(si):
         idx = shards[si]
-        rs = validate_shard([traces[i] for i in idx], dev, os.path.join(workdir, f"sh{si}"), f"s{si}")
+        rs = validate_shard([traces[i] for i in idx], dev, os.path.join(workdir, f"sh{si}"), f"s{si}", profile=profile)
         return idx, rs
 
     with ThreadPoolExecutor(max_workers=jobs) as ex:
